@@ -847,7 +847,7 @@ spif_ustr_trim(spif_ustr_t self)
     spif_charptr_t start, end;
 
     ASSERT_RVAL(!SPIF_USTR_ISNULL(self), FALSE);
-    if (!self->s) {
+    if (!self->s || !self->len) {
         /* Still empty; nothing to trim. */
         return TRUE;
     }
